@@ -19,6 +19,10 @@ RULE = (
     "the same state.  Distances within 1e-6 A of the limit are excluded; sulfurs with two partners "
     "are outside the property (counted).  Non-trivial = distance within 0.3 A of the limit, or "
     "cross-chain pair, or the reversed-order relation was exercised on a bonded pair."
+    ' grid: EXHAUSTIVE S-S vector along 8 directions x distances around the limit x offsets of the '
+    'pair relative to the coordinate grid.  ss also: one partner WITHOUT its SG in the input (rule '
+    'applied to the rebuilt sulfur, --nodebump).  nettable: free cysteine accepting 2-3 hydrogen '
+    'bonds keeps its HG.'
 )
 ASSUMPTIONS = ["bonding limit 2.5 A (strict <) on the coordinates as written in the file"]
 LIMIT = 2.5
